@@ -399,8 +399,11 @@ def r07e(model, ctx):
     ctx.check(ok, R, "_const:int-width", "wide/negative ints use max(32, bits_for(value)) (sign-aware minimal width)",
               "plain integers outside 0..2**31-2 must be emitted as Const(value, max(32, bits_for(value))): bits_for "
               "accounts for the sign bit of negative values, int.bit_length() does not", f"{RTLIL}:{f.lineno}")
-    hits = [n for n in ast.walk(f) if pmatch("value.value & (1 << len(value)) - 1", n) is not None]
-    ctx.check(len(hits) == 1, R, "_const:twos-complement", "Const emitted as value & mask(len) in len digits",
+    from ..engine.bitalg import canon
+    fv = model.func_view(f"{RTLIL}::_const")
+    want = canon("value.value & (1 << len(value)) - 1")
+    hits = [n for n in ast.walk(fv) if isinstance(n, ast.BinOp) and isinstance(n.op, (ast.BitAnd, ast.Mod)) and canon(n) == want]
+    ctx.check(len(hits) >= 1, R, "_const:twos-complement", "Const emitted as value & mask(len) in len digits",
               "a Const must be emitted as its two's complement pattern masked to its own width", f"{RTLIL}:{f.lineno}")
     f = model.func(f"{RTLIL}::_signed")
     lvs = dispatch_leaves(f.body)
